@@ -346,12 +346,18 @@ def run(prog, rep, tier):
     rep.floor('R20.3.conv', nconv, 1, '`From<..> for MLAStatus` conversions')
 
     # ---------------- R20.4 callback adapters
-    adapters = [('CallbackOutput', 'write', 'std::io::Write'), ('CallbackOutput', 'flush', 'std::io::Write'),
-                ('CallbackInputRead', 'read', 'std::io::Read'), ('CallbackInputRead', 'seek', 'std::io::Seek')]
-    for adt, name, tr in adapters:
-        body = one_body(prog, rep, 'R20.4', 'mla-bindings-c', adt=adt, name=name, trait=tr)
-        if body is None:
+    # the adapters are found by what they do: every Read::read / Seek::seek / Write::write / Write::flush of the crate that invokes a caller callback
+    # (the types may be split or renamed; an impl that only delegates to another adapter has no callback invocation of its own)
+    adapter_bodies = []
+    for ab_ in c.bodies:
+        if ab_.kind == 'Closure' or (ab_.impl_trait, ab_.name) not in (('std::io::Write', 'write'), ('std::io::Write', 'flush'), ('std::io::Read', 'read'), ('std::io::Seek', 'seek')):
             continue
+        if any(bl_.term.kind == 'call' and 'indirect' in bl_.term.callee for bl_ in ab_.blocks):
+            adapter_bodies.append(ab_)
+    rep.floor('R20.4.adapters', len(adapter_bodies), 4, 'callback adapters (Read/Seek/Write impls invoking a callback)')
+    for body in adapter_bodies:
+        rep.fn(body)
+        name = body.name
         body = inlined_body(prog, body)    # the status -> io::Result mapping may be a shared private helper
         ind = [b for b in body.blocks if b.term.kind == 'call' and 'indirect' in b.term.callee]
         key = 'R20.4|%s|ok-only-on-status-0' % body.nkey
